@@ -37,8 +37,9 @@ const (
 // c14BC: the kit's clock view with the emission rule of keep-core's real block
 // counters (a height waiter emits the requested block number).
 type c14BC struct {
-	v    *verifkit.View
-	mode int32
+	v      *verifkit.View
+	mode   int32
+	inInit int32 // the state's own Initiate is running: a wait made now does not drain the receive buffer
 }
 
 func (b *c14BC) WaitForBlockHeight(h uint64) error {
@@ -48,7 +49,11 @@ func (b *c14BC) WaitForBlockHeight(h uint64) error {
 	return err
 }
 func (b *c14BC) BlockHeightWaiter(h uint64) (<-chan uint64, error) {
-	atomic.StoreInt32(&b.mode, c14ModeSel)
+	if atomic.LoadInt32(&b.inInit) == 1 {
+		atomic.StoreInt32(&b.mode, c14ModeWait)
+	} else {
+		atomic.StoreInt32(&b.mode, c14ModeSel)
+	}
 	inner, err := b.v.BlockHeightWaiter(h)
 	out := make(chan uint64, 1)
 	go func() {
@@ -234,7 +239,9 @@ func (p *c14Proxy) MemberIndex() group.MemberIndex { return p.inner.MemberIndex(
 func (p *c14Proxy) Initiate(ctx context.Context) error {
 	atomic.StoreInt32(&p.m.curK, int32(p.k))
 	p.m.add("init-begin", p.k, "", 0)
+	atomic.StoreInt32(&p.m.bc.inInit, 1)
 	err := p.inner.Initiate(ctx)
+	atomic.StoreInt32(&p.m.bc.inInit, 0)
 	p.m.add("init-end", p.k, "", 0)
 	return err
 }
@@ -531,7 +538,7 @@ func TestVerif_C14_Publication(t *testing.T) {
 	defer r.Finish()
 	r.SetRule("real DKG result publication chain (signing (1,5), verification (0,0), submission (0,0) whose Initiate waits for the member's eligibility block) under the real SyncMachine, n in {3,4,5}, each member on its own local chain, on the virtual clock: lock-step or bursts of 2-4 blocks, start ahead of or behind the clock. non-trivial = every run (two zero-length states, Initiate of the last state spans (index-1)*step blocks)")
 	r.Assume("the virtual block counter emits the requested block number from a height waiter, as keep-core's local_v1 and ethereum block counters do")
-	n := r.N(36, 1200)
+	n := r.N(60, 1200)
 	var wd int64
 	verifkit.Parallel(n, 0, func(i int) {
 		rng := r.SubRand("publication", i)
